@@ -458,7 +458,8 @@ OPEN_ITEMS = [
     "stack: model + correspondence only (pt_check_select). A refinement proof needs, per input, that the unifier of (lggs, t.vaxes) is solvable and in range (it is, by wts, whenever the generalisation lggs is typed like the inputs) plus soundness of unify and injectivity of the generalised pattern; typing of lggs is not a theorem in general: extend_antisubst memoises on structurally equal parts, which may occur at positions of different sum types",
     "project: proved for typed pairs (C06_project_refines), any fuel; nothing open",
     "copy_: value semantics proved (C06_copy); the storage re-use rule (copy_reuses) is correspondence only (observed through data_ptr)",
-    "log_softmax / norm / iteration / tolist / exp / expm1 / log / logaddexp: correspondence only (no Coq model); any is proved (C06_any) under the guard 'dimension not empty or default false' (C06_any_empty_dim_refuted), dim_to_dense is proved (C06_dim_to_dense) under the guard 'a size-1 dimension is unitAxis'",
+    "__iter__: modelled (pt_iter), model-checked (pt_check_reduce, op 59) and proved (C06_iter: the tensors yielded are the slices along the leading dimension, the unit branch keeps storage / axes / default) under the guard of dim_to_dense; tolist and getitem-by-integer iteration beyond C06_getitem: correspondence only",
+    "log_softmax / norm / exp / expm1 / log / logaddexp: correspondence only (no Coq model); any is proved (C06_any) under the guard 'dimension not empty or default false' (C06_any_empty_dim_refuted), dim_to_dense is proved (C06_dim_to_dense) under the guard 'a size-1 dimension is unitAxis'",
     "a general link from the context-free has_type of Model/Axis.v to the context judgement ty (one direction proved: C06_ty_has_type; the other tied by ty_b on the generator's universes)",
     "F24 (degenerate one-element sum types, not generated): expansion does not broadcast a size-1 dimension whose axis is SumAxis(0, unitAxis, 0); the binary theorems carry the guard bcast_ok and C06_expansion_nonunit_size1_refuted is the witness",
 ]
@@ -500,7 +501,7 @@ def replay(path):
 
 MANIFEST = dict(
     level="proof",
-    text="Coq theorems about a Gallina model of fggs/indices.py's axis algebra (eval bound, stride = affine form, index inverts eval, pattern injectivity = at most one backing element, unify soundness and -- for typed patterns, unbounded, any fuel -- completeness / most general unifier, antiunify generalises both arguments and records parts of equal sizes) and of PatternedTensor: to_dense = denote, view operations, unary maps, binary / commutative / sub / div through expansion WITH broadcasting, __post_init__, dense construction / full / from_int / eye, default_to, getitem (never raises in range), clone/freshen, copy_ and to (value semantics), any (both code paths), dim_to_dense, project (typed pairs: the returned dense tensor indexed by paxes is self indexed by vaxes), where (three operands of one typed shape: torch.where of the denotations), reshape / view (typed targets: denotes the reshaped tensor given wf of the result; succeeds on adjacent merges and size-1 insertion / removal with explicit sizes), preservation of the representation invariant by every constructor and its equivalence with the monitor's oracle; Gallina models of stack and copy_'s storage rule. The models are tied to /repo by running both on generated typed axes/patterns (including one-hot operands: no physical axis, ndim >= 1); brute-force specifications judge every implementation output; every listed tensor operation and compositions of up to three are compared with torch on the denoted dense tensors; every PatternedTensor constructed inside the library is checked against the extracted representation invariant.",
+    text="Coq theorems about a Gallina model of fggs/indices.py's axis algebra (eval bound, stride = affine form, index inverts eval, pattern injectivity = at most one backing element, unify soundness and -- for typed patterns, unbounded, any fuel -- completeness / most general unifier, antiunify generalises both arguments and records parts of equal sizes) and of PatternedTensor: to_dense = denote, view operations, unary maps, binary / commutative / sub / div through expansion WITH broadcasting, __post_init__, dense construction / full / from_int / eye, default_to, getitem (never raises in range), clone/freshen, copy_ and to (value semantics), any (both code paths), dim_to_dense, __iter__, project (typed pairs: the returned dense tensor indexed by paxes is self indexed by vaxes), where (three operands of one typed shape: torch.where of the denotations), reshape / view (typed targets: denotes the reshaped tensor given wf of the result; succeeds on adjacent merges and size-1 insertion / removal with explicit sizes), preservation of the representation invariant by every constructor and its equivalence with the monitor's oracle; Gallina models of stack and copy_'s storage rule. The models are tied to /repo by running both on generated typed axes/patterns (including one-hot operands: no physical axis, ndim >= 1); brute-force specifications judge every implementation output; every listed tensor operation and compositions of up to three are compared with torch on the denoted dense tensors; every PatternedTensor constructed inside the library is checked against the extracted representation invariant.",
     note="Trusted: Coq kernel + vm_compute, extraction cross-checked against vm_compute, the Python harness (numbering of PhysicalAxis objects, independent evaluator of axes), torch's dense kernels as reference. All findings of this check (F1, F16, F16b, F21, F22, F23) are repaired in /repo; F24 (one-element sum types, outside the generated domain) is documented with a Coq witness. Open: where with broadcasting between its operands, stack (model + correspondence), reshape targets with -1 and wf of reshape's result (run-time monitor), fuel sufficiency of unify in general.",
     technique="Coq proof (model + theorems) + model/implementation correspondence with brute-force specification oracles + differential testing against torch on denotations + runtime invariant monitor",
     design_ref="DESIGN.md section 6, C06; Appendix A.6; Appendix C")
